@@ -105,6 +105,8 @@ def cases(tier, seed):
     yield dict(kind='binspecs')
     for scale in itertools.product(['linear', 'log', 'logicle'], repeat=2):
         yield dict(kind='sample', xscale=scale[0], yscale=scale[1])
+    for scale in (('logicle', 'logicle'), ('logicle', 'linear'), ('log', 'logicle')):
+        yield dict(kind='sample-sequence', xscale=scale[0], yscale=scale[1])
     yield dict(kind='permutations', tier=tier)
     yield dict(kind='refusals')
     if tier == 'thorough':
@@ -346,10 +348,14 @@ def run_sample(c, res):
     xs, ys = c['xscale'], c['yscale']
     for chans, cols in ((['CH1', 'CH2'], [0, 1]), ([2, 0], [2, 0]), (['CH2', 2], [1, 2])):
         for bname, mk in (('count', lambda: 8), ('counts', lambda: [8, 5]), ('count+edges', lambda: [6, np.linspace(-0.5, 31.5, 9)]),
-                          ('default-resolution', lambda: 32)):
+                          ('default-resolution', lambda: 32),
+                          # the same counts as NumPy integers / an integer array (e.g. taken from a table or computed)
+                          ('np-count', lambda: np.int64(8)), ('np-counts', lambda: [np.int32(8), np.uint16(5)]), ('array-counts', lambda: np.array([8, 5])),
+                          ('tuple-counts', lambda: (8, 5))):
             exp_edges = None
-            if bname in ('count', 'counts', 'default-resolution'):
-                nb = {'count': (8, 8), 'counts': (8, 5), 'default-resolution': (32, 32)}[bname]
+            if bname != 'count+edges':
+                nb = {'count': (8, 8), 'counts': (8, 5), 'default-resolution': (32, 32), 'np-count': (8, 8), 'np-counts': (8, 5), 'array-counts': (8, 5),
+                      'tuple-counts': (8, 5)}[bname]
                 sub = d[:, chans]
                 exp_edges = (np.asarray(sub.hist_bins(0, nb[0], xs), dtype=float).tolist(), np.asarray(sub.hist_bins(1, nb[1], ys), dtype=float).tolist())
             for sigma in (0.5, 2.0):
@@ -368,6 +374,33 @@ def run_sample(c, res):
                         res.violation('sample:not-nested', 'density2d(sample, bins=%s, %s/%s): kept set not monotone in f' % (bname, xs, ys), dict(c))
                     prev = m if m is not None else prev
     res.sample({'sample': '46 events, 3 channels, resolution 32', 'xscale': xs, 'yscale': ys})
+
+
+def run_sample_sequence(c, res):
+    """samples with the same acquisition settings but different events, gated one after the other with sample-derived bins: each
+    is gated on its own grid (logicle edges depend on the sample's most negative event)"""
+    import FlowCal
+    rs = np.random.RandomState(5)
+    base = np.abs(rs.normal(300.0, 120.0, size=(300, 2))) + 5.0
+    variants = {'strongly-negative': np.vstack([base, [[-900.0, 40.0], [-350.0, -600.0], [20.0, -80.0]]]),
+                'mildly-negative': np.vstack([base, [[-3.0, 40.0], [30.0, -1.5]]]), 'positive': base.copy()}
+    samples = {}
+    for name, arr in variants.items():
+        lay = dict(datatype='D', bits=[64, 64], ranges=[4096, 4096], events=[[fcsgen.float_bits(float(x), 'D') for x in r] for r in arr.tolist()], byteord='1,2,3,4')
+        buf, _ = fcsgen.build(lay)
+        p = os.path.join(scratch(), 'c05seq_%s.fcs' % name)
+        with open(p, 'wb') as f:
+            f.write(buf)
+        samples[name] = FlowCal.io.FCSData(p)
+    for order in itertools.permutations(sorted(samples)):
+        for name in list(order) + [order[0]]:
+            d = samples[name]
+            for bname, mk, nb in (('count', lambda: 16, (16, 16)), ('counts', lambda: [16, 9], (16, 9))):
+                exp_edges = (np.asarray(d.hist_bins(0, nb[0], c['xscale']), dtype=float).tolist(), np.asarray(d.hist_bins(1, nb[1], c['yscale']), dtype=float).tolist())
+                for f in (0.3, 0.8, 1.0):
+                    what = 'density2d(%s sample (gated after %s), bins=%s, xscale=%r, yscale=%r, gate_fraction=%r)' % (name, list(order), bname, c['xscale'], c['yscale'], f)
+                    judge(res, 'sequence:' + bname, what, d, [0, 1], [0, 1], mk, f, 1.0, dict(c), expect_edges=exp_edges, extra_kw=dict(xscale=c['xscale'], yscale=c['yscale']))
+    res.sample({'samples': sorted(samples), 'orders': 'all 6', 'xscale': c['xscale'], 'yscale': c['yscale']})
 
 
 def run_permutations(c, res):
@@ -447,6 +480,8 @@ def run_case(c):
             run_binspecs(c, res)
         elif k == 'sample':
             run_sample(c, res)
+        elif k == 'sample-sequence':
+            run_sample_sequence(c, res)
         elif k == 'permutations':
             run_permutations(c, res)
         elif k == 'refusals':
